@@ -603,6 +603,14 @@ func (it *interp) expr(n *N, env *Env) (any, compl) {
 			fmt.Fprintf(&it.out, "e%s\n", ToString(args[0]))
 			return args[1], normal
 		}
+		if n.S == "th" {
+			fmt.Fprintf(&it.out, "h%s\n", ToString(args[0]))
+			if args[1].(*big.Int).Cmp(bi(2)) > 0 {
+				it.events["th_throw"]++
+				return nil, compl{kind: cThrow, val: Sym("a")}
+			}
+			return args[1], normal
+		}
 		if n.S == "deep" {
 			it.events["deep_call"]++
 			return it.callClosure(args[1].(*Closure), nil)
